@@ -34,3 +34,101 @@ def gen_reset(w, rng):
 
 
 REG.by_key[PEPP + '_reset_classes'].gen = gen_reset
+
+
+# =====================================================================================================================
+# declared objects are stored exactly once (C05), class constraints are regenerated from fresh lists at each solve (C13)
+CT, ET, MT, FT, BT, PEPT = TRef('Constraint'), TRef('Expression'), TRef('PSDMatrix'), TRef('Function'), TRef('BlockPartition'), TRef('PEP')
+sx.FIELD_TYPES.update({
+    'PEP.list_of_constraints': TList(CT), 'PEP.list_of_psd': TList(MT), 'PEP.list_of_performance_metrics': TList(ET),
+    'Function.list_of_constraints': TList(CT), 'Function.list_of_psd': TList(MT),
+    'Function.list_of_class_constraints': TList(CT), 'Function.list_of_class_psd': TList(MT),
+    'BlockPartition.list_of_constraints': TList(CT),
+})
+
+
+def appended(S0, S, L, x):
+    """list object L (same object) has exactly one more element, x, at the end"""
+    i = fresh('i', I)
+    return z3.And(S.len(L) == S0.len(L) + 1, S.elt(L, S0.len(L)) == x,
+                  z3.ForAll([i], z3.Implies(z3.And(i >= 0, i < S0.len(L)), S.elt(L, i) == S0.elt(L, i))))
+
+
+def name_effect(S0, S, cls, obj, name):
+    return z3.And(z3.Implies(name.none, z3.And(S.fld_none(cls, 'name', obj) == S0.fld_none(cls, 'name', obj),
+                                                z3.Implies(z3.Not(S0.fld_none(cls, 'name', obj)), S.fld(cls, 'name', obj) == S0.fld(cls, 'name', obj)))),
+                  z3.Implies(z3.Not(name.none), z3.And(z3.Not(S.fld_none(cls, 'name', obj)), S.fld(cls, 'name', obj) == name.t)))
+
+
+def adder(key, owner_cls, list_attr, pname, ptype, named=True, variants=None):
+    lst = lambda S, a: S.fld(owner_cls, list_attr, a['self'].t)
+    params = [('self', TRef(owner_cls)), (pname, ptype)] + ([('name', TOpt(TStr))] if named else [])
+
+    def ens(S0, S, a, res):
+        out = [('stored_once', appended(S0, S, lst(S0, a), a[pname].t), 'property'),
+               ('same_list', lst(S, a) == lst(S0, a), 'aux')]
+        if named and ptype.a[0] in ('Constraint', 'Expression'):
+            out.append(('name', name_effect(S0, S, ptype.a[0], a[pname].t, a['name']), 'aux'))
+        return out
+
+    def mods(S, a):
+        m = {'len': lambda r: r == lst(S, a), 'eltI': lambda r: r == lst(S, a)}
+        if named:
+            m.update({'f:name': lambda r: r == a[pname].t, 'f:name?none': lambda r: r == a[pname].t})
+        return m
+    return contract(key, params, returns=TNone, variants={pname: variants or []},
+                    defaults={'name': lambda: sx.VNONE} if named else {},
+                    raises=[('*', lambda S, a: z3.Not(inst(S, a[pname], ptype.a[0])))],
+                    requires=lambda S, a: [('list_is_not_the_object', lst(S, a) != a[pname].t)] if a[pname].ty.k == 'ref' else [],
+                    ensures=ens, modifies=mods)
+
+
+adder(PEPP + 'add_constraint', 'PEP', 'list_of_constraints', 'constraint', CT, variants=[ET, TAny])
+adder(PEPP + 'set_performance_metric', 'PEP', 'list_of_performance_metrics', 'expression', ET, variants=[CT, TAny, Scalar])
+adder('PEPit/function.py::Function.add_constraint', 'Function', 'list_of_constraints', 'constraint', CT, variants=[ET, TAny])
+adder('PEPit/block_partition.py::BlockPartition.add_constraint', 'BlockPartition', 'list_of_constraints', 'constraint', CT, named=False, variants=[ET, TAny])
+
+# set_initial_condition(condition, name=None): names the condition, then stores it through add_constraint
+contract(PEPP + 'set_initial_condition', [('self', PEPT), ('condition', CT), ('name', TOpt(TStr))], returns=TNone,
+         defaults={'name': lambda: sx.VNONE},
+         requires=lambda S, a: [('list_is_not_the_object', S.fld('PEP', 'list_of_constraints', a['self'].t) != a['condition'].t)],
+         ensures=lambda S0, S, a, res: [('stored_once', appended(S0, S, S0.fld('PEP', 'list_of_constraints', a['self'].t), a['condition'].t), 'property'),
+                                        ('name', name_effect(S0, S, 'Constraint', a['condition'].t, a['name']), 'aux')],
+         modifies=lambda S, a: {'len': lambda r: r == S.fld('PEP', 'list_of_constraints', a['self'].t),
+                                'eltI': lambda r: r == S.fld('PEP', 'list_of_constraints', a['self'].t),
+                                'f:name': lambda r: r == a['condition'].t, 'f:name?none': lambda r: r == a['condition'].t})
+
+# ---- abstract contract of add_class_constraints (overridden by the 24 classes; their bodies are checked by contract-level
+# execution under C03 / C04): it only EXTENDS the two class lists and may allocate
+FCLS = ['f:Function.list_of_class_constraints', 'f:Function.list_of_class_psd']
+
+
+def acc_ens(S0, S, a, res):
+    f = a['self'].t
+    Lc, Lp = S0.fld('Function', 'list_of_class_constraints', f), S0.fld('Function', 'list_of_class_psd', f)
+    i = fresh('i', I)
+    keep = lambda L: z3.And(S.len(L) >= S0.len(L), z3.ForAll([i], z3.Implies(z3.And(i >= 0, i < S0.len(L)), S.elt(L, i) == S0.elt(L, i))))
+    return [('same_lists', z3.And(S.fld('Function', 'list_of_class_constraints', f) == Lc, S.fld('Function', 'list_of_class_psd', f) == Lp), 'aux'),
+            ('extends_only', z3.And(keep(Lc), keep(Lp)), 'aux')]
+
+
+contract('PEPit/function.py::Function.add_class_constraints', [('self', FT)], returns=TNone, ensures=acc_ens, assumed=True,
+         modifies=lambda S, a: {'len': lambda r: z3.Or(r == S.fld('Function', 'list_of_class_constraints', a['self'].t), r == S.fld('Function', 'list_of_class_psd', a['self'].t)),
+                                'eltI': lambda r: z3.Or(r == S.fld('Function', 'list_of_class_constraints', a['self'].t), r == S.fld('Function', 'list_of_class_psd', a['self'].t))},
+         touches=lambda S, a: sorted(set(['len', 'eltI', 'cls', 'dom', 'valR'] + obj_arrays('Expression') + obj_arrays('Point'))),
+         mod_globals=['Constraint.counter', 'PSDMatrix.counter', 'Point.counter', 'Expression.counter'],
+         note='abstract contract of the overridable method; the 24 overrides are executed at contract level (sym/classcheck.py)')
+
+
+def scc_ens(S0, S, a, res):
+    f = a['self'].t
+    Lc, Lp = S.fld('Function', 'list_of_class_constraints', f), S.fld('Function', 'list_of_class_psd', f)
+    return [('fresh_constraint_list', z3.And(Lc >= S0.alloc, Lc < S.alloc), 'property'),       # nothing of an earlier solve survives (F4 / C13)
+            ('fresh_lmi_list', z3.And(Lp >= S0.alloc, Lp < S.alloc), 'property'),
+            ('distinct', Lc != Lp, 'aux')]
+
+
+contract('PEPit/function.py::Function.set_class_constraints', [('self', FT)], returns=TNone, ensures=scc_ens,
+         modifies=lambda S, a: {n: (lambda r: r == a['self'].t) for n in FCLS},
+         touches=lambda S, a: sorted(set(FCLS + ['len', 'eltI', 'cls', 'dom', 'valR'] + obj_arrays('Expression') + obj_arrays('Point'))),
+         mod_globals=['Constraint.counter', 'PSDMatrix.counter', 'Point.counter', 'Expression.counter'])
